@@ -100,7 +100,7 @@ def run_case(case):
         kw["max_connects"] = mc
     out = []
     try:
-        ret = bounded(lambda: util.connect_randomly(w, src_arg, dest_arg, *attrs, **kw), 50 * (ns + nd) + 1000)
+        ret = bounded(lambda: util.connect_randomly(w, src_arg, dest_arg, *attrs, **kw), 500 * (ns + nd) + 10000)
     except LineBudget as e:
         return [("C18.no_termination", f"connect_randomly executed more than {e} lines of mosaik/util.py for "
                                        f"{ns} sources and {nd} destinations ({len(w.calls)} connections made)")]
